@@ -26,6 +26,7 @@ CONSTANTS K,          \* ids are 0..K-1
           MaxPart,    \* ids per extend step / per fragment
           MaxSegs,    \* extend steps / fragments
           MaxDepth,
+          QLen,       \* longest select / chunk-size list the query invariants try
           NP,         \* offmap: physical rows 0..NP-1 may be deleted
           Mode
 
@@ -78,8 +79,9 @@ AddFragment ==
                  b == SubSeq(xs, cut+1, Len(xs))
              IN /\ LiveUnique(Append(layG, <<xs, d>>))
                 /\ layG' = Append(layG, <<xs, d>>)
-                /\ \E ka \in Representable(a) \cup (IF a = <<>> THEN {"R"} ELSE {}),
-                      kb \in Representable(b) \cup (IF b = <<>> THEN {"R"} ELSE {}) :
+                \* encodings matter little here: the code's own choice, or a plain array
+                /\ \E ka \in {ChooseKind(a, Ascending(a))} \cup (IF a = <<>> THEN {} ELSE {"A"}),
+                      kb \in {ChooseKind(b, Ascending(b))} \cup (IF b = <<>> THEN {} ELSE {"A"}) :
                       layC' = Append(layC, <<IF cut = 0 THEN <<Build(kb, b)>>
                                                ELSE SeqExtend(<<Build(ka, a)>>, <<Build(kb, b)>>), d>>)
    /\ UNCHANGED <<seq, ghost, dv, mst, lastOff, res>>
@@ -110,10 +112,10 @@ QueriesAgree ==
    LET n == Len(ghost) IN
    /\ \A i \in 0..(n+1) : SeqGet(seq, i) = Get(ghost, i)
    /\ \A off \in 0..n : \A len \in 0..(n - off) : SeqSliceIter(seq, off, len) = Slice(ghost, off, len)
-   /\ \A sel \in NonDecLists(0..(n+1), 3) : SeqSelect(seq, sel) = Select(ghost, sel)
+   /\ \A sel \in NonDecLists(0..(n+1), QLen) : SeqSelect(seq, sel) = Select(ghost, sel)
 RechunkAgrees ==
    LET n == Len(ghost) IN
-   \A sizes \in Lists(0..(n+1), 3) : \A allowInc \in BOOLEAN :
+   \A sizes \in Lists(0..(n+1), QLen) : \A allowInc \in BOOLEAN :
       LET r == SeqRechunk(seq, sizes, allowInc) IN
       /\ (r[1] = "ok") = RechunkOk(ghost, sizes, allowInc)
       /\ r[1] = "ok" => [k \in DOMAIN r[2] |-> SeqIter(r[2][k])] = RechunkChunks(ghost, sizes)
